@@ -19,7 +19,7 @@ Your task: make a small change to the rsass sources in {wt} (typically 1-15 line
   (b) the existing test suite still passes completely (run it and check: 0 failed), and
   (c) the breakage needs something specific to manifest - an unusual input, a particular combination of features, a multi-step sequence, a boundary value, two cooperating sites that each look fine alone - NOT something that ordinary use or the first obvious example would expose at once. It should look like a plausible bug a maintainer could introduce (an off-by-one, a swapped argument, a missed case, a wrong comparison, an over-eager optimisation), not sabotage such as `if input == "magic"`.
 
-Then write a demonstration: either a Rust integration test file that can be dropped in as rsass/tests/seed_demo.rs and run with `cargo test -p rsass --test seed_demo --offline` (it may only use the public API of the rsass crate), or a shell script demo.sh taking the worktree path as $1. The demonstration must FAIL with your change applied and PASS on the unchanged code (verify both, using `git stash` or similar, and restore your change afterwards).
+Then write a demonstration: either a Rust integration test file that can be dropped in as rsass/tests/seed_demo.rs and run with `cargo test -p rsass --test seed_demo --offline` (it may only use the public API of the rsass crate), or a shell script demo.sh taking the worktree path as $1. The demonstration must FAIL with your change applied and PASS on the unchanged code (verify both; do NOT use `git stash` - the stash list is shared with other worktrees - instead save your change with `git diff > /tmp/seed-out/{pid}/patch.diff`, undo it with `git apply -R`, and re-apply it with `git apply`).
 
 Deliverables, written to /tmp/seed-out/{pid}/ (create the directory):
   - patch.diff : output of `git -C {wt} diff` with ONLY your source change (not the demo file)
